@@ -17,6 +17,10 @@ import (
 	"massnet.org/mass-wallet/masswallet/utils"
 )
 
+// errAlreadyMined is returned by insertMemPoolTx for an unconfirmed transaction that the
+// store already holds as a mined transaction.
+var errAlreadyMined = errors.New("transaction is already mined")
+
 //TxStore definition
 type TxStore struct {
 	chainParams  *config.Params
@@ -162,6 +166,9 @@ func (s *TxStore) updateMinedBalance(tx mwdb.DBTransaction,
 // AddRelevantTx ...
 func (s *TxStore) AddRelevantTx(tx mwdb.DBTransaction, allBalances map[string]massutil.Amount, rec *TxRecord, block *BlockMeta) error {
 	err := s.InsertTx(tx, allBalances, rec, block)
+	if err == errAlreadyMined {
+		return nil
+	}
 	if err != nil {
 		return err
 	}
@@ -190,6 +197,16 @@ func (s *TxStore) insertMemPoolTx(tx mwdb.DBTransaction, rec *TxRecord) error {
 	}
 	if um != nil {
 		return nil
+	}
+
+	// a transaction that is already recorded as mined is not pending (it may be relayed
+	// again after its block, e.g. when the volatile mempool set was lost at a restart)
+	mined, err := tx.FetchBucket(s.bucketMeta.nsTxRecords).GetByPrefix(rec.Hash[:])
+	if err != nil {
+		return err
+	}
+	if len(mined) > 0 {
+		return errAlreadyMined
 	}
 
 	logging.CPrint(logging.DEBUG, "Inserting unconfirmed transaction", logging.LogFormat{"tx": rec.Hash.String()})
